@@ -124,7 +124,7 @@ PROPS = {
         "assumptions": ["regtest only for the end-to-end stream (proof of work must be mined); mainnet/testnet header rules are covered by C11's stream"],
     },
     "C13": {
-        "extra_props": ["C13Live", "FullSys", "FullSysExample"],
+        "extra_props": ["C13Live", "FullSys", "FullSysExample", "C13Full"],
         "model_spec_ops": ["c hb", "c reply"],
         "spec_ops": [],
         "streams": [{"name": "sync", "quick": 160, "thorough": 3200}],
